@@ -45,6 +45,12 @@ var c14SrvSeq atomic.Int64
 // c14StartServer starts thruserv on a free loopback port (retrying on collisions) and
 // waits for /health.
 func c14StartServer(e *Env, flags []string) (*c14Server, error) {
+	return c14StartServerEnv(e, flags, nil)
+}
+
+// c14StartServerEnv: as c14StartServer, with extra environment entries for the server process
+// (VERIFHOOK=... to steer a hook point inside the real server, VERIF_JOINCODE_PLAN=file).
+func c14StartServerEnv(e *Env, flags []string, env []string) (*c14Server, error) {
 	bin := filepath.Join(e.BinDir, "thruserv")
 	if _, err := os.Stat(bin); err != nil {
 		return nil, fmt.Errorf("thruserv binary missing in %s: %v", e.BinDir, err)
@@ -67,7 +73,7 @@ func c14StartServer(e *Env, flags []string) (*c14Server, error) {
 		cmd := exec.Command(bin, args...)
 		cmd.Stdout = lf
 		cmd.Stderr = lf
-		cmd.Env = append(os.Environ(), "VERIFHOOK=", "VERIFHOOK_LOG=")
+		cmd.Env = append(append(os.Environ(), "VERIFHOOK=", "VERIFHOOK_LOG=", "VERIF_JOINCODE_PLAN="), env...)
 		if err := cmd.Start(); err != nil {
 			_ = lf.Close()
 			return nil, err
